@@ -220,6 +220,13 @@ func (p *snapshotPool) RejectPeer(peerID p2p.ID) {
 	p.peerBlacklist[peerID] = true
 }
 
+// IsPeerRejected returns true if the peer has been rejected.
+func (p *snapshotPool) IsPeerRejected(peerID p2p.ID) bool {
+	p.Lock()
+	defer p.Unlock()
+	return p.peerBlacklist[peerID]
+}
+
 // RemovePeer removes a peer from the pool, and any snapshots that no longer have peers.
 func (p *snapshotPool) RemovePeer(peerID p2p.ID) {
 	p.Lock()
